@@ -7,6 +7,7 @@ import Driver.CL
 import Driver.ShareClass
 import Driver.Route
 import Driver.Lockup
+import Driver.LockupMV
 import Driver.IbcSwap
 import Driver.Untrusted
 import Driver.Fee
@@ -38,6 +39,7 @@ def suites : List (String × (IO.FS.Stream → IO.FS.Stream → IO Unit)) :=
   [("share", ShareSuite.run)] ++
   [("route", RouteSuite.run)] ++
   [("lockup", LockupSuite.run)] ++
+  [("lockupmv", LockupMVSuite.run)] ++
   [("ibc", IbcSuite.run)] ++
   [("untrusted", UntrustedSuite.run)] ++
   [("fee", FeeSuite.run)] ++
